@@ -2,6 +2,7 @@
   C03 — parse result contract: whole input, output/error consistency, lazy prefix.
 -/
 import ChumskyModel.Proofs.Lemmas.Top
+import ChumskyModel.Proofs.Lemmas.ExtResult
 set_option linter.unusedSimpArgs false
 namespace Chumsky
 
@@ -116,6 +117,34 @@ example :
       | _ => (none, 99, true)) = (some (.nat 9), 1, false) := by
   decide
 
+/-! ### the same contract for grammars with extensions (`EEnv`: any number of Pratt tables and nested-input parsers containing
+  each other — the machine is `runE`, the reading `pegE`) -/
+
+theorem c03_extensions_no_output_has_error (e : EEnv) (n : Nat) (env : Env) (m : Mode) (g : G) (r : ParseResult) (f : St)
+    (h : parseTopE e n env m g = .result r f) (ho : r.output = none) : r.errs ≠ [] :=
+  parseTopE_no_output_has_error e n env m g r f h ho
+
+theorem c03_extensions_error_free_has_output (e : EEnv) (n : Nat) (env : Env) (m : Mode) (g : G) (r : ParseResult) (f : St)
+    (h : parseTopE e n env m g = .result r f) (he : r.errs = []) : r.output.isSome = true :=
+  parseTopE_error_free_has_output e n env m g r f h he
+
+/-- rejection ⇔ the reading of "grammar then end" fails; an accepted error-free parse is a success of the reading without
+    emissions that ends where the machine ends (the end of the outer input: the grammar is followed by `end()`) -/
+theorem c03_extensions_reject_iff (e : EEnv) (n : Nat) (env : Env) (m : Mode) (g : G) (hm : env.memoOn = false)
+    (r : ParseResult) (f : St) (h : parseTopE e n env m g = .result r f) :
+    r.output = none ↔ pegTopE e n env g = .fail :=
+  parseTopE_reject_iff e n env m g hm r f h
+
+theorem c03_extensions_whole_input (e : EEnv) (n : Nat) (env : Env) (m : Mode) (g : G) (hm : env.memoOn = false)
+    (r : ParseResult) (f : St) (h : parseTopE e n env m g = .result r f) (v : Val) (ho : r.output = some v)
+    (he : r.errs = []) :
+    ∃ v' s, pegTopE e n env g = .ok v' s [] ∧ v = m.bind v' ∧ f.pos = s.pos :=
+  parseTopE_whole_input e n env m g hm r f h v ho he
+
+#print axioms c03_extensions_no_output_has_error
+#print axioms c03_extensions_error_free_has_output
+#print axioms c03_extensions_reject_iff
+#print axioms c03_extensions_whole_input
 #print axioms c03_no_output_has_error
 #print axioms c03_error_free_has_output
 #print axioms c03_errors_never_ok
